@@ -518,6 +518,22 @@ def _r2_cwmh(chk, repo, k: Kernel, acc, asg):
 
 
 # ------------------------------------------------------------------------------------------------ R4
+def _ancestors(node, root):
+    """AST ancestors of node inside root (computed by search; the raw trees carry no parent links)"""
+    path = []
+
+    def rec(cur, stack):
+        if cur is node:
+            path.extend(stack)
+            return True
+        for ch in ast.iter_child_nodes(cur):
+            if rec(ch, stack + [cur]):
+                return True
+        return False
+    rec(root, [])
+    return path
+
+
 def _r4(chk, repo):
     targets = [("cuqi/experimental/mcmc/_mh.py", "MH"), ("cuqi/experimental/mcmc/_cwmh.py", "CWMH"),
                ("cuqi/sampler/_mh.py", "MH"), ("cuqi/sampler/_cwmh.py", "CWMH")]
@@ -558,6 +574,21 @@ def _r4(chk, repo):
             after = [n for n in g.nodes if n.ast is not None and any(
                 isinstance(c, ast.Call) and call_name(c) == "self.validate_proposal" for c in ast.walk(n.ast))]
             if any(g.reaches(st, a) for a in after) and _validate_raises_on_asymmetry(repo, ci):
+                # ... which is a refusal only if the refused object does not stay installed: the validating call sits in a try whose handler
+                # re-binds self._proposal (to the previous value) and re-raises
+                rolled = False
+                for a in after:
+                    for anc in _ancestors(a.ast, fn):
+                        if isinstance(anc, ast.Try):
+                            for h in anc.handlers:
+                                rebinds = any(isinstance(x, ast.Assign) and path_of(x.targets[0]) == "self._proposal" and vparam not in {y.id for y in ast.walk(x.value) if isinstance(y, ast.Name)}
+                                              for x in ast.walk(h))
+                                reraises = any(isinstance(x, ast.Raise) for x in h.body)
+                                rolled = rolled or (rebinds and reraises)
+                if rolled:
+                    continue
+                problems.append(f"line {st.lineno}: the user-provided proposal is stored first and validated afterwards without rolling the store back: the ValueError is raised but "
+                                f"the asymmetric proposal stays installed, and a caller who catches the error keeps sampling with a kernel whose ratio has no proposal correction")
                 continue
             problems.append(f"line {st.lineno}: a user-provided proposal distribution can be stored without its is_symmetric flag "
                             f"having been required (the ratio has no proposal correction)")
